@@ -1597,5 +1597,29 @@ func grammarForms(o *strings.Builder) {
 	for _, r := range []string{"analytic_function", "analytic_clause", "analytic_clause_with_windowing", "windowing_clause", "window_position", "window_relative_position", "window_frame_low", "window_frame_high"} {
 		parts = append(parts, "("+q(r)+", "+strList(rules[r])+")")
 	}
+	// per head symbol of analytic_function: (some production carries IGNORE NULLS, some production carries a windowing clause)
+	var heads []string
+	ign, win := map[string]bool{}, map[string]bool{}
+	for _, prod := range rules["analytic_function"] {
+		ws := strings.Fields(prod)
+		h := ws[0]
+		if _, seen := ign[h]; !seen {
+			heads = append(heads, h)
+			ign[h], win[h] = false, false
+		}
+		for _, w := range ws {
+			if w == "IGNORE" {
+				ign[h] = true
+			}
+			if w == "analytic_clause_with_windowing" {
+				win[h] = true
+			}
+		}
+	}
+	var rights []string
+	for _, h := range heads {
+		rights = append(rights, fmt.Sprintf("(%s, %v, %v)", q(h), ign[h], win[h]))
+	}
+	fmt.Fprintf(o, "/-- per head symbol of the productions of `analytic_function`: (IGNORE NULLS possible, windowing clause possible) -/\ndef grammarRights : List (String × Bool × Bool) :=\n  [%s]\n\n", strings.Join(rights, ", "))
 	fmt.Fprintf(o, "/-- lib/parser/parser.y: the productions that decide which analytic function takes IGNORE NULLS, a windowing\n    clause, and which frame bounds exist -/\ndef grammarForms : List (String × List String) :=\n  [%s]\n\n", strings.Join(parts, ",\n   "))
 }
